@@ -26,6 +26,8 @@ def make_terminating(rules):
             if st >= 3:
                 acts = [a for a in acts if a[0] not in "STO"]
             w[4] = str(st + 1)
+        else:
+            w[4] = str(max(int(w[4]), st))   # the control state never decreases
         fixed.append(" ".join(w[:5] + acts))
     return fixed
 
